@@ -199,6 +199,48 @@ def plant_extra(rng, doc, kind):
     return None
 
 
+ATTACHED_NAMES = ("rowStretch", "columnStretch", "rowMinimumHeight", "columnMinimumWidth", "row", "column", "rowSpan", "columnSpan")
+
+
+def attached_effect_docs(rng, n):
+    """An attached QLayout.* binding with a distinctive value on a child of each layout class: whatever the combination, it is
+    either refused with an error or the value shows up on the parent <layout> / the child's <item>."""
+    out = []
+    for k in range(n):
+        lay = rng.choice(("QFormLayout", "QVBoxLayout", "QHBoxLayout", "QGridLayout"))
+        name = rng.choice(ATTACHED_NAMES)
+        val = rng.choice((37, 41, 53))
+        kids = ["QLabel { text: \"a\" }", "QLineEdit { QLayout.%s: %d }" % (name, val), "QLabel { text: \"b\" }"]
+        if rng.random() < 0.5:
+            kids.reverse()
+        out.append(("import qmluic.QtWidgets\nQWidget {\n    %s {\n        %s\n    }\n}\n" % (lay, "\n        ".join(kids)), lay, name, val))
+    return out
+
+
+def judge_attached_effect(v, rng, n):
+    cases = attached_effect_docs(rng, n)
+    out = common.translate([{"id": "t%d" % i, "source": c[0], "modes": ["generate"], "want": ["ui"]} for i, c in enumerate(cases)], tag="c04t")
+    seen = {}
+    for i, (qml, lay, name, val) in enumerate(cases):
+        rs = out.results.get("t%d" % i)
+        if not rs or rs[0].get("panic"):
+            continue
+        r = rs[0]
+        key = (lay, name, "accepted" if doccheck.accepted(r) else "refused")
+        seen[key] = seen.get(key, 0) + 1
+        if not doccheck.accepted(r):
+            continue
+        root = uiparse.parse(r["ui"])
+        le = next(x for x in root.walk() if x.tag == "layout")
+        edit = next(x for x in root.walk() if x.tag == "widget" and x.attrs.get("class") == "QLineEdit")
+        item = edit.parent if edit.parent is not None and edit.parent.tag == "item" else None
+        hay = list(le.attrs.values()) + (list(item.attrs.values()) if item is not None else [])
+        if not any(str(val) in re.split(r"[,\s]+", h) for h in hay):
+            v.violation("attached-in-neither", "QLayout.%s: %d on a child of a %s is accepted, but the value appears neither on the <layout> "
+                        "nor on the child's <item> (%r)" % (name, val, lay, hay), {"qml": qml, "ui": r["ui"]})
+    return seen
+
+
 def fault_spans(doc, f):
     """Spans a diagnostic for this fault may lie in: the planted binding, and for duplicates its twin(s)."""
     spans = [f.binding.span]
@@ -261,6 +303,106 @@ def cli_case(args):
     return k, results
 
 
+ROLES = ["window", "windowText", "base", "text", "button", "buttonText", "highlight", "link", "mid", "toolTipBase"]
+GROUPS = ["active", "inactive", "disabled"]
+
+
+def split_group_docs(rng, n):
+    """Grouped values written in several pieces and mixed notations, at nesting depth 1 and 2: every member written anywhere
+    must surface.  -> [(qml, [("palette", group, role, (r, g, b))], [("font", member, text)])]"""
+    out = []
+    for k in range(n):
+        want_pal, want_font, lines = [], [], []
+        cells = rng.sample([(g, r) for g in GROUPS for r in ROLES], rng.randint(2, 7))
+        pieces = []
+        i = 0
+        while i < len(cells):
+            take = cells[i:i + rng.randint(1, 3)]
+            i += len(take)
+            pieces.append(take)
+        n_col = 0
+        for take in pieces:
+            cols = []
+            for (g, r) in take:
+                n_col += 1
+                rgb = (n_col, (7 * n_col + k) % 256, (13 * n_col + 2 * k) % 256)
+                cols.append(((g, r), rgb, "\"#%02x%02x%02x\"" % rgb))
+                want_pal.append((g, r, rgb))
+            form = rng.choice(("dotted", "outer-group", "nested-group", "mid-dotted"))
+            if form == "dotted":
+                lines += ["    palette.%s.%s: %s" % (g, r, c) for (g, r), _, c in cols]
+            elif form == "mid-dotted":
+                lines.append("    palette { %s }" % "; ".join("%s.%s: %s" % (g, r, c) for (g, r), _, c in cols))
+            elif form == "outer-group":
+                byg = {}
+                for (g, r), _, c in cols:
+                    byg.setdefault(g, []).append("%s: %s" % (r, c))
+                lines += ["    palette.%s { %s }" % (g, "; ".join(ms)) for g, ms in byg.items()]
+            else:
+                byg = {}
+                for (g, r), _, c in cols:
+                    byg.setdefault(g, []).append("%s: %s" % (r, c))
+                lines.append("    palette { %s }" % " ".join("%s { %s }" % (g, "; ".join(ms)) for g, ms in byg.items()))
+        fm = rng.sample([("bold", "true", "true"), ("italic", "true", "true"), ("pointSize", "9", "9"), ("family", "\"Mono\"", "Mono"),
+                         ("underline", "false", "false"), ("weight", "63", "63")], rng.randint(2, 4))
+        cut = rng.randint(1, len(fm) - 1)
+        for part in (fm[:cut], fm[cut:]):
+            if rng.random() < 0.5:
+                lines.append("    font { %s }" % "; ".join("%s: %s" % (m, sv) for m, sv, _ in part))
+            else:
+                lines += ["    font.%s: %s" % (m, sv) for m, sv, _ in part]
+        want_font = [(m, t) for m, _, t in fm]
+        rng.shuffle(lines)
+        out.append(("import qmluic.QtWidgets\nQWidget {\n%s\n}\n" % "\n".join(lines), want_pal, want_font))
+    return out
+
+
+def judge_split_groups(v, rng, n):
+    cases = split_group_docs(rng, n)
+    out = common.translate([{"id": "g%d" % i, "source": c[0], "modes": ["generate"], "want": ["ui"]} for i, c in enumerate(cases)], tag="c04g")
+    n_ok = n_rej = 0
+    for i, (qml, want_pal, want_font) in enumerate(cases):
+        rs = out.results.get("g%d" % i)
+        if not rs or rs[0].get("panic"):
+            v.inconc("no result for a split-group document")
+            continue
+        r = rs[0]
+        if not doccheck.accepted(r):
+            n_rej += 1
+            continue
+        root = uiparse.parse(r["ui"])
+        w = root.find("widget")
+        props = uiparse.properties_of(w)
+        rp = {"qml": qml, "ui": r["ui"]}
+        pal = props.get("palette")
+        pal = pal.children[0] if pal is not None and pal.children else None
+        bad = None
+        for (g, role, rgb) in want_pal:
+            ge = pal.find(g) if pal is not None else None
+            cr = next((c for c in (ge.children if ge is not None else []) if c.tag == "colorrole"
+                       and c.attrs.get("role", "").lower() == role.lower()), None)
+            col = next((x for x in cr.walk() if x.tag == "color"), None) if cr is not None else None
+            got = tuple(int(col.find(t).text) for t in ("red", "green", "blue")) if col is not None else None
+            if got != rgb:
+                bad = "palette.%s.%s is %r in the .ui, written as %r" % (g, role, got, rgb)
+                break
+        f = props.get("font")
+        f = f.children[0] if f is not None and f.children else None
+        for (m, t) in want_font:
+            if bad:
+                break
+            e = f.find(m.lower()) if f is not None else None
+            if e is None or e.text != t:
+                bad = "font.%s is %r in the .ui, written as %r" % (m, e.text if e is not None else None, t)
+        if bad:
+            v.violation("const-in-neither", "grouped value written in several pieces: %s" % bad, rp)
+        else:
+            n_ok += 1
+    if n_rej > n // 2:
+        v.inconc("%d of %d split-group documents rejected" % (n_rej, n))
+    return n_ok, n_rej
+
+
 def run(tier, seed, replay=None):
     v = common.Verdict("C04", tier, seed)
     rng = common.rng_for(seed, "C04", tier)
@@ -293,6 +435,9 @@ def run(tier, seed, replay=None):
         judge_accepted(v, cat, d, g, stats)
     if n_rej > 0.3 * len(docs):
         v.inconc("generator: %d of %d documents rejected: %r" % (n_rej, len(docs), rej_msgs))
+
+    n_split_ok, n_split_rej = judge_split_groups(v, rng, 40 if tier == "quick" else 600)
+    attached_seen = judge_attached_effect(v, rng, 64 if tier == "quick" else 400)
 
     # ---------------------------------------------------------------- part 2: one planted faulty binding
     kinds = BINDING_FAULTS + list(EXTRA_FAULTS)
@@ -386,6 +531,6 @@ def run(tier, seed, replay=None):
              "+ (position, stale) classes observed" % len(kinds),
         samples=samples, documents=len(docs), accepted=len(accepted), rejected=n_rej, rejected_reasons=rej_msgs,
         bindings_located=stats["bindings"], binding_classes={"/".join(k): n for k, n in sorted(stats["kinds"].items())},
-        faulted_documents=len(faulted), fault_outcomes={"%s:%s" % k: n for k, n in sorted(fault_seen.items())},
+        attached_binding_outcomes={"%s/%s/%s" % k: n for k, n in sorted(attached_seen.items())}, split_group_documents_located=n_split_ok, split_group_documents_rejected=n_split_rej, faulted_documents=len(faulted), fault_outcomes={"%s:%s" % k: n for k, n in sorted(fault_seen.items())},
         cli_invocations=n_cli, cli_positions=sorted("%s/%s" % (p, "stale" if s else "absent") for p, s in positions), floor=10,
     )
